@@ -76,7 +76,7 @@ def recognizeHttp (method path : Bytes) : Option Proxy :=
         if h < v then some (.http a 80) else (parseU16 (a.drop (h + 1))).map fun p => .http (a.take h) p
 
 /-- `check_address`: a name the outbound protocols can carry -/
-def admit (host : Bytes) (port : Nat) : Option Addr :=
+def admitHost (host : Bytes) (port : Nat) : Option Addr :=
   if host.length = 0 ∨ host.length > 255 then none else some (.domain host port)
 
 /-- what httparse reports for the bytes peeked so far, as far as `recognize` uses it: the method
@@ -114,11 +114,11 @@ def httpHandshake (b : Bytes) : Outcome :=
     match recognizeHttp method target with
     | none => .refused []
     | some (.http h p) =>
-      match admit h p with
+      match admitHost h p with
       | some a => .tunnel a 0 []            -- a plain request is forwarded untouched
       | none => .refused []
     | some (.https h p) =>
-      match admit h p with
+      match admitHost h p with
       | none => .refused []
       | some a =>
         match findBlankLine (b.take 8192) with
@@ -138,7 +138,7 @@ def socks5Handshake (greeting request : Bytes) (bound : Addr) : Outcome :=
       if cmd ≠ 1 then .refused reply else      -- only CONNECT opens a tunnel
       match a with
       | .domain h p =>
-        (match admit h p with
+        (match admitHost h p with
          | some a => .tunnel a (greeting.length + request.length - rest.length) reply
          | none => .refused reply)
       | a => .tunnel a (greeting.length + request.length - rest.length) reply
